@@ -252,6 +252,9 @@ structure CoarseGrid.WellFormed (cg : CoarseGrid) (dtFine : List Rat) : Prop whe
 def EqualDiscount (ref : Grid) (cg : CoarseGrid) : Prop :=
   ∀ i, i < cg.minor.length → ∀ t, t ∈ cg.minor.getD i [] → ref.df.getD t 0 = cg.grid.df.getD i 0
 
+instance (ref : Grid) (cg : CoarseGrid) : Decidable (EqualDiscount ref cg) := by
+  unfold EqualDiscount; exact inferInstance
+
 /-- capacities and extra costs constant inside every coarse step: evaluated on the fine steps they are the values
     of the coarse steps (the coarse step carries the value at its first minor step / its point; the complement is
     finding F-13i).  Scalars always satisfy this (`EAO.C13B.constInside_scalar`). -/
